@@ -187,3 +187,95 @@ Proof.
     - split; [constructor; [intro Hc; specialize (LB k Hc); lia | exact ND] | intros x [<-|Hx]; [lia | specialize (LB x Hx); lia]]. }
   apply G.
 Qed.
+
+(* ------------------------------------------------------------------ *)
+(* loop removal: ordinary reachability along "@import" edges gives a path without repetition,
+   so the chunk holds everything that is reachable in the usual sense *)
+Fixpoint chainp (g : cgraph) (f : nat) (l : list nat) : Prop :=
+  match l with
+  | [] => True
+  | t :: r => In t (cf_recs (getc g f)) /\ chainp g t r
+  end.
+
+Inductive creach (g : cgraph) : nat -> nat -> Prop :=
+| cr_refl f : creach g f f
+| cr_step f t x : In t (cf_recs (getc g f)) -> creach g t x -> creach g f x.
+
+Lemma last_cons_indep (l : list nat) a d d' : last (a :: l) d = last (a :: l) d'.
+Proof. revert a. induction l as [|y l IH]; intro a; [reflexivity|]. change (last (y :: l) d = last (y :: l) d'). apply IH. Qed.
+
+Lemma creach_chain g f x : creach g f x -> exists l, chainp g f l /\ last l f = x.
+Proof.
+  intro H. induction H as [f|f t x Ht H [l [Hc Hl]]]; [exists []; split; [exact I | reflexivity]|].
+  exists (t :: l). split; [split; assumption|]. destruct l as [|y l]; [exact Hl|].
+  change (last (y :: l) f = x). rewrite (last_cons_indep l y f t). exact Hl.
+Qed.
+
+Lemma last_occurrence (f : nat) l : In f l -> exists l1 l2, l = l1 ++ f :: l2 /\ ~ In f l2.
+Proof.
+  induction l as [|y l IH]; intro H; [destruct H|].
+  destruct (in_dec Nat.eq_dec f l) as [Hl|Hl].
+  - destruct (IH Hl) as [l1 [l2 [E N]]]. exists (y :: l1), l2. split; [rewrite E; reflexivity | exact N].
+  - destruct H as [->|H]; [|contradiction]. exists [], l. split; [reflexivity | exact Hl].
+Qed.
+
+Lemma chainp_suffix g : forall l1 f t l2, chainp g f (l1 ++ t :: l2) -> chainp g t l2.
+Proof.
+  induction l1 as [|y l1 IH]; intros f t l2 H; simpl in H; [tauto|]. destruct H as [_ H]. eapply IH; eauto.
+Qed.
+Lemma last_suffix (l1 : list nat) t l2 d : last (l1 ++ t :: l2) d = last l2 t.
+Proof.
+  induction l1 as [|y l1 IH]; simpl.
+  - destruct l2 as [|n l2]; [reflexivity|]. change (last (n :: l2) d = last (n :: l2) t). apply last_cons_indep.
+  - destruct (l1 ++ t :: l2) eqn:E; [destruct l1; discriminate|]. exact IH.
+Qed.
+
+Lemma loop_removal g : forall n l f avoid, (length l <= n)%nat -> chainp g f l ->
+  ~ In f avoid -> (forall y, In y l -> ~ In y avoid) -> spath g avoid f (last l f).
+Proof.
+  induction n as [|n IH]; intros l f avoid HL HC Hf Hl.
+  - destruct l; [apply sp_here; exact Hf | simpl in HL; lia].
+  - destruct (in_dec Nat.eq_dec f l) as [Hin|Hin].
+    + destruct (last_occurrence f l Hin) as [l1 [l2 [E N]]]. subst l.
+      rewrite last_suffix. apply IH.
+      * rewrite app_length in HL. simpl in HL. lia.
+      * eapply chainp_suffix; eauto.
+      * exact Hf.
+      * intros y Hy. apply Hl. apply in_or_app. right. right. exact Hy.
+    + destruct l as [|t r]; [apply sp_here; exact Hf|].
+      simpl in HC. destruct HC as [Ht HC].
+      eapply sp_step; [exact Hf | exact Ht |].
+      replace (last (t :: r) f) with (last r t) by (destruct r as [|y r]; [reflexivity | change (last (y :: r) t = last (y :: r) f); apply last_cons_indep]).
+      apply IH.
+      * simpl in HL. lia.
+      * exact HC.
+      * intros [Hc|Hc]; [apply Hin; left; symmetry; exact Hc | apply (Hl t (or_introl eq_refl)); exact Hc].
+      * intros y Hy [Hc|Hc]; [apply Hin; right; rewrite Hc; exact Hy | apply (Hl y (or_intror Hy)); exact Hc].
+Qed.
+
+
+Lemma chain_nonzero g : no_zero_targetb g = true -> forall l f, chainp g f l -> forall y, In y l -> y <> 0%nat.
+Proof.
+  intros Z. induction l as [|t r IH]; intros f HC y Hy; [destruct Hy|].
+  simpl in HC. destruct HC as [Ht HC]. destruct Hy as [<-|Hy]; [|eapply IH; eauto].
+  intro E. subst t. unfold no_zero_targetb in Z. rewrite forallb_forall in Z.
+  destruct (Nat.ltb_spec f (length g)) as [Hf|Hf].
+  - specialize (Z (getc g f) (nth_In _ _ Hf)). apply negb_true_iff in Z. apply memn_false in Z. contradiction.
+  - unfold getc in Ht. rewrite nth_overflow in Ht by exact Hf. destruct Ht.
+Qed.
+
+Theorem css_chunk_reachable_all g e c : wf_cgraphb g = true -> no_zero_targetb g = true -> (e < length g)%nat ->
+  (In c (css_chunk_files g e) <->
+   exists f root, jreach g e f /\ cf_stub (getc g f) = Some root /\ root <> 0%nat /\ creach g root c).
+Proof.
+  intros W Z He. rewrite (css_chunk_exact_all g e c W He). split.
+  - intros [f [root [Hf [Hs P]]]]. exists f, root. split; [exact Hf|]. split; [exact Hs|].
+    assert (G : forall avoid a b, spath g avoid a b -> ~ In a avoid /\ creach g a b).
+    { intros avoid a b Q. induction Q as [av a H|av a t b H Ht Q [_ IH]]; split; auto; [apply cr_refl | eapply cr_step; eauto]. }
+    destruct (G _ _ _ P) as [N R]. split; [intro E; apply N; left; symmetry; exact E | exact R].
+  - intros [f [root [Hf [Hs [Hn R]]]]]. exists f, root. split; [exact Hf|]. split; [exact Hs|].
+    destruct (creach_chain _ _ _ R) as [l [HC <-]].
+    apply (loop_removal g (length l) l root [0%nat] (le_n _) HC).
+    + intros [E|[]]. apply Hn. symmetry. exact E.
+    + intros y Hy [E|[]]. apply (chain_nonzero g Z l root HC y Hy). symmetry. exact E.
+Qed.
